@@ -110,7 +110,10 @@ def impl_visit(node, handlers, c_ast, mode=0):
     mode 2: the same instance visits the tree twice; the second traversal is reported.
     mode 3: the visit_X methods REMOVE the node they are given from the list that holds it (a visitor that edits the tree while
             walking it) before doing their work; every child that was there when its parent's traversal began is still visited once.
-    mode 4: the visitor class also has methods called visit_Node and visit_object: no node has such a class, they are never called."""
+    mode 4: the visitor class also has methods called visit_Node and visit_object: no node has such a class, they are never called.
+    mode 5: every visit_X (and the overriding generic_visit) RETURNS a value: return values of handlers do not steer the traversal.
+    mode 6: the handlers are attributes of the visitor INSTANCE (bound at run time), not of its class.
+    mode 7: the handlers are staticmethods / classmethods of the visitor class (alternating)."""
     events = []
 
     def mk(kind):
@@ -150,6 +153,42 @@ def impl_visit(node, handlers, c_ast, mode=0):
         ns = {"visit_" + c: mk3(k) for c, k in items}
         ns["generic_visit"] = generic_visit
         type("V3", (c_ast.NodeVisitor,), ns)().visit(node)
+        return RS.join(US.join(e) for e in events)
+    if mode == 5:
+        def mk5(kind):
+            def visit_X(self, n):
+                events.append((type(n).__name__, "1"))
+                if kind == 2:
+                    c_ast.NodeVisitor.generic_visit(self, n)
+                return ("handled", type(n).__name__)
+            return visit_X
+
+        def generic5(self, n):
+            events.append((type(n).__name__, "0"))
+            c_ast.NodeVisitor.generic_visit(self, n)
+            return 1
+        ns = {"visit_" + c: mk5(k) for c, k in items}
+        ns["generic_visit"] = generic5
+        type("V5", (c_ast.NodeVisitor,), ns)().visit(node)
+        return RS.join(US.join(e) for e in events)
+    if mode in (6, 7):
+        V = type("V67", (c_ast.NodeVisitor,), {"generic_visit": generic_visit})
+        v = V()
+
+        def mk6(kind):
+            def h(n):
+                events.append((type(n).__name__, "1"))
+                if kind == 2:
+                    c_ast.NodeVisitor.generic_visit(v, n)
+            return h
+        for i_, (c, k) in enumerate(items):
+            if mode == 6:
+                setattr(v, "visit_" + c, mk6(k))
+            elif i_ % 2 == 0:
+                setattr(V, "visit_" + c, staticmethod(mk6(k)))
+            else:
+                setattr(V, "visit_" + c, classmethod((lambda f_: (lambda cls, n: f_(n)))(mk6(k))))
+        v.visit(node)
         return RS.join(US.join(e) for e in events)
     if mode == 4:
         def bogus(self, n):
